@@ -115,6 +115,51 @@ def tolerance_pair(ck, prog):
         ck.oblige('C15.tolerance.pair.none', p, not p.ok, 'no tolerance => no slippage rejection')
 
 
+def tolerance_trio(ck):
+    import lib_trio as LT
+    prog3 = ck.program('stableswap_3pool', 'white_whale_std')
+    AST = 'stableswap_3pool::helpers::assert_slippage_tolerance'
+    def body(it):
+        c = it.ctx
+        t = c.sym('t', 128); d = [c.sym('d%d' % i, 128) for i in range(3)]; pl = [c.sym('p%d' % i, 128) for i in range(3)]
+        pools = Agg('array', [LT.tasset(it, 'native', i, pl[i]) for i in range(3)])
+        return run_entry(it, AST, Ref([SOME(DEC(t))], 0), Ref([Agg('array', [U128(x) for x in d])], 0), Ref([pools], 0), U128(c.sym('amount', 128)), U128(c.sym('supply', 128)))
+    t, amount, supply = z3.Int('t'), z3.Int('amount'), z3.Int('supply')
+    d = [z3.Int('d%d' % i) for i in range(3)]; pl = [z3.Int('p%d' % i) for i in range(3)]
+    kinds = set()
+    for p in ck.explore(prog3, body, 'tolerance.trio'):
+        kinds.add(p.short())
+        ck.sample(dict(fn='trio helpers::assert_slippage_tolerance', outcome=p.short()))
+        if p.kind != 'ret': continue
+        pr = p.div((pl[0] + pl[1] + pl[2]) * E18, supply); dr = p.div((d[0] + d[1] + d[2]) * E18, amount)
+        within = z3.And(t <= E18, p.div(pr * (E18 - t), E18) <= dr)
+        if p.ok: ck.oblige('C15.tolerance.trio.sound', p, z3.Not(within), 'Ok => (pool total / LP supply) * (1 - t) <= deposit total / minted LP')
+        else: ck.oblige('C15.tolerance.trio.complete', p, within, 'within the bound => not rejected')
+    ck.require('Ok' in kinds and any(k.startswith('Err') for k in kinds), 'tolerance.trio: expected Ok and Err paths')
+    def body_none(it):
+        c = it.ctx
+        pools = Agg('array', [LT.tasset(it, 'native', i, c.sym('p%d' % i, 128)) for i in range(3)])
+        return run_entry(it, AST, Ref([NONE()], 0), Ref([Agg('array', [U128(c.sym('d%d' % i, 128)) for i in range(3)])], 0), Ref([pools], 0), U128(c.sym('amount', 128)), U128(c.sym('supply', 128)))
+    for p in ck.explore(prog3, body_none, 'tolerance.trio.none'):
+        ck.oblige('C15.tolerance.trio.none', p, not p.ok, 'no tolerance => no slippage rejection')
+    # the deposit passes the real deposits, reserves, minted amount and supply to the test
+    rec = {}
+    def spy(it, a, c):
+        it.extra['ast_args'] = [dup(deref(x)) for x in a]
+        return it.run(it.prog.get(AST), list(a))
+    kindsT = ('native', 'native', 'cw20')
+    n = 0
+    for p in ck.explore(prog3, LT.tprovide_body(kindsT, slippage=True), 'tolerance.trio.args', stubs=dict(LT.KERNEL_STUBS, **{AST: spy}), validate=False):
+        if 'ast_args' not in p.extra: continue
+        n += 1
+        a = p.extra['ast_args']; st = p.extra['st']; dd = p.extra['d']
+        R = [st['b'][i] - st['f'][i] - (dd[i] if kindsT[i] == 'native' else 0) for i in range(3)]
+        tol = a[0]
+        bad = z3.Or(tol.variant != 'Some' or tol.fields[0].fields[0] != z3.Int('slippage'), *[a[1].fields[i].fields[0] != dd[i] for i in range(3)], *[a[2].fields[i].fields[1].fields[0] != R[i] for i in range(3)], a[4].fields[0] != st['S'])             if tol.variant == 'Some' else True
+        ck.oblige('C15.tolerance.trio.args', p, bad, 'the deposit checks its tolerance on (deposits in pool order, reserves net of fees and of the credited deposit, minted LP, LP supply)')
+    ck.require(n >= 1, 'trio provide never reached assert_slippage_tolerance')
+
+
 def swap_args(ck, prog):
     """entry level: swap passes (offer amount, return + all fees, spread) to assert_max_spread."""
     SCN = 'terraswap_pair::helpers::SwapComputation'
@@ -237,6 +282,7 @@ def main():
     prog = ck.program('terraswap_pair', 'white_whale_std')
     max_spread_checks(ck, prog)
     tolerance_pair(ck, prog)
+    tolerance_trio(ck)
     swap_args(ck, prog)
     router_checks(ck, ck.program('terraswap_router', 'white_whale_std'))
     ck.bounds.update(widths='all amounts, prices, spreads and tolerances full u128 / any Decimal', routes='router: 1..3 hops over a fixed alternating native/cw20 asset chain, receiver given or defaulting to the sender')
